@@ -10,6 +10,7 @@ Inductive regex :=
 | RLit (c : N)               (* a literal character, written c or \c *)
 | RDot                       (* .      any character; excludes '\n' unless the s flag is on *)
 | RNotSlash                  (* [^/]   any character but '/'; includes '\n' (Perl flags: ClassNL) *)
+| RNone                      (* [^\x00-\x{10FFFF}]   the empty character class: no character at all *)
 | RBol                       (* ^      beginning of text (no m flag) *)
 | REol                       (* $      end of text (no m flag) *)
 | RCat (a b : regex)
@@ -67,6 +68,7 @@ Fixpoint rems (fl : bool) (r : regex) (c : cfg) : list cfg :=
   | RLit x => step (N.eqb x) c
   | RDot => step (fun y => fl || negb (y =? 10)) c
   | RNotSlash => step (fun y => negb (y =? 47)) c
+  | RNone => []
   | RBol => if fst c then [c] else []
   | REol => if isnil (snd c) then [c] else []
   | RCat a b => flat_map (rems fl b) (rems fl a c)
@@ -93,6 +95,7 @@ Fixpoint print (r : regex) : str :=
   | RLit c => if needs_escape c then [92; c] else [c]
   | RDot => [46]
   | RNotSlash => [91; 94; 47; 93]
+  | RNone => [91; 94; 92; 120; 48; 48; 45; 92; 120; 123; 49; 48; 70; 70; 70; 70; 125; 93]   (* [^\x00-\x{10FFFF}] *)
   | RBol => [94]
   | REol => [36]
   | RCat a b => print a ++ print b
@@ -105,7 +108,7 @@ Fixpoint print (r : regex) : str :=
 (** The shape of the parse tree as a string, in the notation the harness uses to dump the result of
     regexp/syntax.Parse: concatenations flattened, the empty regexp contributing nothing, an alternation
     written {a|b|c} (flattened), a capture C(..), a star S(..), a literal L followed by two hex digits,
-    D = any character, d = any character but newline, N = [^/], ^ and $ the text anchors. *)
+    D = any character, d = any character but newline, N = [^/], 0 = the empty character class, ^ and $ the text anchors. *)
 Definition hexdigit (n : N) : N := if n <? 10 then 48 + n else 87 + n.
 Definition hex2 (c : N) : str := [hexdigit (c / 16); hexdigit (c mod 16)].
 
@@ -118,6 +121,7 @@ Fixpoint shape_s (fl : bool) (r : regex) : str :=
   | RLit c => 76 :: hex2 c
   | RDot => [if fl then 68 else 100]
   | RNotSlash => [78]
+  | RNone => [48]
   | RBol => [94]
   | REol => [36]
   | RCat a b => shape_s fl a ++ shape_s fl b
